@@ -4,6 +4,8 @@
 package main
 
 import (
+	"bytes"
+	"compress/gzip"
 	"context"
 	"crypto/sha256"
 	"encoding/binary"
@@ -76,6 +78,7 @@ type Scenario struct {
 	Throttled  []int64       `json:"throttled_delays_ns,omitempty"` // accumulated-throttle scenario: the delays asked for, in the unit the client reads
 	Kind       string        `json:"kind"`
 	Token      string        `json:"token"`
+	Headers    map[string]string `json:"headers,omitempty"`
 }
 
 type arrival struct {
@@ -282,6 +285,9 @@ func mkExporter(e int, endpoint string, sc *Scenario) (*exporter, error) {
 		if sc.Gzip {
 			opts = append(opts, otlptracehttp.WithCompression(otlptracehttp.GzipCompression))
 		}
+		if sc.Headers != nil {
+			opts = append(opts, otlptracehttp.WithHeaders(sc.Headers))
+		}
 		x, err := otlptracehttp.New(ctx, opts...)
 		if err != nil {
 			return nil, err
@@ -311,6 +317,9 @@ func mkExporter(e int, endpoint string, sc *Scenario) (*exporter, error) {
 			if sc.Gzip {
 				opts = append(opts, otlpmetrichttp.WithCompression(otlpmetrichttp.GzipCompression))
 			}
+			if sc.Headers != nil {
+				opts = append(opts, otlpmetrichttp.WithHeaders(sc.Headers))
+			}
 			x, err := otlpmetrichttp.New(ctx, opts...)
 			if err != nil {
 				return nil, err
@@ -333,6 +342,9 @@ func mkExporter(e int, endpoint string, sc *Scenario) (*exporter, error) {
 				otlploghttp.WithRetry(otlploghttp.RetryConfig{Enabled: sc.Enabled, InitialInterval: sc.Initial, MaxInterval: maxInt, MaxElapsedTime: sc.MaxElapsed})}
 			if sc.Gzip {
 				opts = append(opts, otlploghttp.WithCompression(otlploghttp.GzipCompression))
+			}
+			if sc.Headers != nil {
+				opts = append(opts, otlploghttp.WithHeaders(sc.Headers))
 			}
 			x, err := otlploghttp.New(ctx, opts...)
 			if err != nil {
@@ -453,6 +465,201 @@ func runScenario(sc *Scenario) (ob Obs, failure string) {
 	ob.ErrClass = errClass(eerr)
 	ob.Handled = countHandled(sc.Token)
 	return ob, ""
+}
+
+
+// ---------------------------------------------------------------------------
+// concurrent bursts (HTTP exporters): N exports started together in this process, each through its own
+// exporter instance and with its own payload, against ONE scripted server that answers the first attempt of
+// every export with 503 and the next with 200.  Anything shared between exports at package level (buffer
+// pools) is exercised here; every attempt's body must decompress / decode to the export's own payload.
+// ---------------------------------------------------------------------------
+
+type Burst struct {
+	Exporter int
+	Gzip     bool
+	N        int
+	Initial  time.Duration
+	Tokens   []string
+}
+
+type BurstObs struct {
+	Attempts int      `json:"attempts"`
+	Decoded  []uint64 `json:"decoded_hashes"`
+	Own      []bool   `json:"own_payload"`
+	ErrClass int      `json:"err_class"`
+	Err      string   `json:"err"`
+	Handled  int      `json:"handled"`
+}
+
+type burstServer struct {
+	mu     sync.Mutex
+	bodies map[string][][]byte
+	gzip   map[string][]bool
+}
+
+func (b *burstServer) ServeHTTP(w http.ResponseWriter, r *http.Request) {
+	body, _ := io.ReadAll(r.Body)
+	id := r.Header.Get("X-Export-Id")
+	b.mu.Lock()
+	first := len(b.bodies[id]) == 0
+	b.bodies[id] = append(b.bodies[id], body)
+	b.gzip[id] = append(b.gzip[id], r.Header.Get("Content-Encoding") == "gzip")
+	b.mu.Unlock()
+	if first {
+		w.WriteHeader(503)
+		w.Write([]byte("scripted failure"))
+		return
+	}
+	w.WriteHeader(200)
+}
+
+func gunzip(b []byte) ([]byte, bool) {
+	zr, err := gzip.NewReader(bytes.NewReader(b))
+	if err != nil {
+		return nil, false
+	}
+	out, err := io.ReadAll(zr)
+	if err != nil {
+		return nil, false
+	}
+	return out, true
+}
+
+// ownPayload: raw decodes as this signal's export request and names exactly this export's telemetry.
+func ownPayload(sig int, raw []byte, token string) bool {
+	n, ok := 0, true
+	switch sig {
+	case 0:
+		var m coltracepb.ExportTraceServiceRequest
+		if proto.Unmarshal(raw, &m) != nil {
+			return false
+		}
+		for _, rs := range m.ResourceSpans {
+			for _, ss := range rs.ScopeSpans {
+				for _, sp := range ss.Spans {
+					n++
+					ok = ok && sp.Name == "span-"+token
+				}
+			}
+		}
+	case 1:
+		var m colmetricpb.ExportMetricsServiceRequest
+		if proto.Unmarshal(raw, &m) != nil {
+			return false
+		}
+		for _, rm := range m.ResourceMetrics {
+			for _, sm := range rm.ScopeMetrics {
+				for _, mm := range sm.Metrics {
+					n++
+					ok = ok && mm.Name == "m-"+token
+				}
+			}
+		}
+	default:
+		var m collogpb.ExportLogsServiceRequest
+		if proto.Unmarshal(raw, &m) != nil {
+			return false
+		}
+		for _, rl := range m.ResourceLogs {
+			for _, sl := range rl.ScopeLogs {
+				for _, lr := range sl.LogRecords {
+					n++
+					ok = ok && lr.GetBody().GetStringValue() == "log-"+token
+				}
+			}
+		}
+	}
+	return ok && n == 1
+}
+
+func runBurst(b *Burst) (obs []BurstObs, failure string) {
+	defer func() {
+		if e := recover(); e != nil {
+			failure = fmt.Sprintf("panic: %v", e)
+		}
+	}()
+	srv := &burstServer{bodies: map[string][][]byte{}, gzip: map[string][]bool{}}
+	hs := httptest.NewServer(srv)
+	defer func() { hs.CloseClientConnections(); hs.Close() }()
+	endpoint := strings.TrimPrefix(hs.URL, "http://")
+	xs := make([]*exporter, b.N)
+	for i := 0; i < b.N; i++ {
+		sc := &Scenario{Exporter: b.Exporter, Enabled: true, Initial: b.Initial, MaxElapsed: 20 * time.Second, Gzip: b.Gzip,
+			Token: b.Tokens[i], Headers: map[string]string{"X-Export-Id": b.Tokens[i]}}
+		x, err := mkExporter(b.Exporter, endpoint, sc)
+		if err != nil {
+			return nil, "exporter construction: " + err.Error()
+		}
+		xs[i] = x
+	}
+	errs := make([]error, b.N)
+	barrier := make(chan struct{})
+	var wg sync.WaitGroup
+	for i := 0; i < b.N; i++ {
+		wg.Add(1)
+		go func(i int) {
+			defer wg.Done()
+			<-barrier
+			errs[i] = xs[i].export(context.Background())
+		}(i)
+	}
+	close(barrier)
+	done := make(chan struct{})
+	go func() { wg.Wait(); close(done) }()
+	select {
+	case <-done:
+	case <-time.After(30 * time.Second):
+		return nil, "a burst of concurrent exports did not return within 30 s (watchdog)"
+	}
+	for _, x := range xs {
+		sctx, scancel := context.WithTimeout(context.Background(), 5*time.Second)
+		x.shutdown(sctx)
+		scancel()
+	}
+	srv.mu.Lock()
+	defer srv.mu.Unlock()
+	for i := 0; i < b.N; i++ {
+		tok := b.Tokens[i]
+		ob := BurstObs{Attempts: len(srv.bodies[tok]), ErrClass: errClass(errs[i]), Handled: countHandled(tok)}
+		if errs[i] != nil {
+			ob.Err = errs[i].Error()
+			if len(ob.Err) > 300 {
+				ob.Err = ob.Err[:300]
+			}
+		}
+		for j, raw := range srv.bodies[tok] {
+			dec, ok := raw, true
+			if srv.gzip[tok][j] {
+				dec, ok = gunzip(raw)
+			}
+			if ok != true || srv.gzip[tok][j] != b.Gzip {
+				ob.Decoded = append(ob.Decoded, 0)
+				ob.Own = append(ob.Own, false)
+				continue
+			}
+			ob.Decoded = append(ob.Decoded, hashBody(dec))
+			ob.Own = append(ob.Own, ownPayload(signal(b.Exporter), dec, tok))
+		}
+		obs = append(obs, ob)
+	}
+	return obs, ""
+}
+
+func genBursts(r *vgen.Rand, tier string) []Burst {
+	var out []Burst
+	reps := 1
+	if tier == "thorough" {
+		reps = 6
+	}
+	for rep := 0; rep < reps; rep++ {
+		for e := 0; e < 3; e++ {
+			for k := 0; k < 7; k++ {
+				out = append(out, Burst{Exporter: e, Gzip: k < 5, N: 8 + r.Intn(9), Initial: time.Duration(1+r.Intn(2)) * time.Millisecond})
+			}
+		}
+	}
+	return out
 }
 
 // ---------------------------------------------------------------------------
@@ -808,6 +1015,47 @@ func main() {
 		w.Tally(fmt.Sprintf("attempts:%d", min(ob.Attempts, 6)))
 		w.Tally(fmt.Sprintf("err_class:%d", ob.ErrClass))
 		w.Add(term, desc, sc.Kind+"-"+exporterNames[sc.Exporter], ob.Attempts > 1 || ob.ErrClass != 0)
+	}
+	bursts := genBursts(r.Fork(), o.Tier)
+	for bi := range bursts {
+		for i := 0; i < bursts[bi].N; i++ {
+			bursts[bi].Tokens = append(bursts[bi].Tokens, fmt.Sprintf("btk%04d-%02dx", bi, i))
+		}
+	}
+	bobs := make([][]BurstObs, len(bursts))
+	bfail := make([]string, len(bursts))
+	var bwg sync.WaitGroup
+	bsem := make(chan struct{}, 3)
+	for bi := range bursts {
+		bwg.Add(1)
+		go func(bi int) {
+			defer bwg.Done()
+			bsem <- struct{}{}
+			defer func() { <-bsem }()
+			bobs[bi], bfail[bi] = runBurst(&bursts[bi])
+		}(bi)
+	}
+	bwg.Wait()
+	for bi, b := range bursts {
+		if bfail[bi] != "" {
+			w.Violation(bfail[bi], map[string]any{"exporter": exporterNames[b.Exporter], "burst": b})
+			continue
+		}
+		for i, ob := range bobs[bi] {
+			var ds, own []string
+			for _, d := range ob.Decoded {
+				ds = append(ds, vgen.N(d))
+			}
+			for _, x := range ob.Own {
+				own = append(own, vgen.Bool(x))
+			}
+			term := vgen.App("CBurst", vgen.N(uint64(b.Exporter)), vgen.Bool(b.Gzip), vgen.Nat(ob.Attempts), vgen.List(ds), vgen.List(own),
+				vgen.N(uint64(ob.ErrClass)), vgen.N(uint64(ob.Handled)))
+			desc := map[string]any{"exporter": exporterNames[b.Exporter], "burst": map[string]any{"gzip": b.Gzip, "concurrent_exports": b.N, "initial_interval": b.Initial},
+				"export": b.Tokens[i], "observed": ob}
+			w.Tally(fmt.Sprintf("burst:gzip=%v", b.Gzip))
+			w.Add(term, desc, fmt.Sprintf("burst-gzip=%v-%s", b.Gzip, exporterNames[b.Exporter]), true)
+		}
 	}
 	if err := w.Flush(); err != nil {
 		fmt.Fprintln(os.Stderr, err)
